@@ -32,6 +32,8 @@ SHAPES = {
     'k1/all': (['A'], None), 'k1/none': (['A'], []), 'k1/unknown': (['A'], ['A', 'zzz']),
     'k2/all': (['A', 'B'], None), 'k2/reversed': (['A', 'B'], ['B', 'A']), 'k2/onlyB': (['A', 'B'], ['B']),
     'k2/none': (['A', 'B'], []),
+    # default selection = insertion order of the submodel dictionary, whatever the ids are (not sorted, need not be comparable)
+    'k2/insertion-order': (['B', 'A'], None), 'k2/mixed-ids': (['B', 1], None),
 }
 
 
@@ -50,7 +52,7 @@ class LinkerSolveT(FunctionContract):
         members = {'_': lenv}
         subs = {}
         for i in ids:
-            env = make_model(interp, BaseModel, label=i)
+            env = make_model(interp, BaseModel, label=str(i))
             ctx.assume(env.n == lenv.n)               # spans of submodels equal the linker's (established by __init__)
             members[i] = env
             subs[i] = env.obj
